@@ -249,7 +249,22 @@ def case_weigh(ctx, spec):
 
     def call(algo):
         try:
-            return algo(strat)
+            r = algo(strat)
+            if name in ("WeighEqually", "WeighSpecified", "WeighInvVol", "WeighERC", "WeighMeanVar") and isinstance(strat.temp.get("weights"), dict):
+                # what a call leaves in temp belongs to the strategy: later algos edit it in place (LimitDeltas does). The same instance
+                # asked again for the same selection on the same date must answer the same, whatever happened to its previous answer
+                first = dict(strat.temp["weights"])
+                strat.temp["weights"]["__edited_by_a_later_algo__"] = 9.9
+                strat.temp["weights"].update({k: 0.123 for k in first})
+                strat.temp = {"selected": list(sel)}
+                algo(strat)
+                again = dict(strat.temp.get("weights") or {})
+                if set(again) != set(first) or any(abs(again[k] - first[k]) > 1e-12 for k in first):
+                    raise Violation("%s(%s) asked twice for the selection %s on one date answered %s, then %s (the first answer had been edited in place in between)" % (name, p, sel, first, again), signature=sig + ":repeat")
+                strat.temp["weights"] = dict(first)
+            return r
+        except (Violation, Discard):
+            raise
         except Exception as e:
             if any(k in str(e) for k in DEP):
                 raise Discard("dependency did not converge")
